@@ -97,11 +97,21 @@ def check_family(case):
                 dom_lb[i, j], dom_ub[i, j] = pess_margin(W, rects[i], rects[j])  # i pessimistically dominates j
     must_out = {j for j in range(n) if any(dom_lb[i, j] > tau for i in range(n) if i != j)}   # certainly dominated
     may_out = {j for j in range(n) if any(dom_ub[i, j] >= -tau for i in range(n) if i != j)}  # possibly dominated
+    from vopy.confidence_region import confidence_region_check_dominates
+
+    # the set must be the definition applied to the pairwise comparison itself (exact, also for ties and any cone)
+    pair = {(y, x): bool(confidence_region_check_dominates(order, regions[y], regions[x])) for x in range(n) for y in range(n) if x != y}
+    by_definition = {x for x in range(n) if not any(pair[(y, x)] for y in range(n) if y != x)}
+    if any(pair[(y, x)] and pair[(x, y)] for x in range(n) for y in range(x)):
+        labels.append("mutual-domination-tie")
     for cls in (VOGP, EpsilonPAL):
         ns = SimpleNamespace(S=set(S), P=set(P), order=order, design_space=SimpleNamespace(confidence_regions=regions))
         got = cls.compute_pessimistic_set(ns)
         if not isinstance(got, set) or not got <= set(range(n)):
             return Result.violation(f"C11:pess-set:{cls.__name__}:type", f"{got!r}", labels)
+        if got != by_definition:
+            return Result.violation(f"C11:pess-set:{cls.__name__}:not-the-undominated-set-of-the-pairwise-comparison",
+                                    f"got {sorted(got)}, designs no other active design pessimistically dominates: {sorted(by_definition)}; rects={rects} W={W.tolist()}", labels)
         # soundness (all cones): nothing outside may_out may be excluded
         wrongly_excluded = (set(range(n)) - got) - may_out
         if wrongly_excluded:
@@ -158,7 +168,21 @@ def st_family(draw):
     m = gen.spec_dim(spec)
     n = draw(st.integers(2, 6 if m == 2 else 4))
     scale = draw(gen.st_logfloat(1e-2, 1e1))
-    rects = [draw(gr.st_rect(m, scale * draw(st.sampled_from([1.0, 0.3, 0.1])))) for _ in range(n)]
+    rects = []
+    for _ in range(n):
+        mode = draw(st.sampled_from(["free", "free", "free", "copy", "same-lower", "same-upper"])) if rects else "free"
+        r = draw(gr.st_rect(m, scale * draw(st.sampled_from([1.0, 0.3, 0.1]))))
+        if mode != "free":  # ties: identical rectangles / shared worst or best corner (mutual pessimistic domination)
+            b = rects[draw(st.integers(0, len(rects) - 1))]
+            if mode == "copy":
+                r = {"lo": list(b["lo"]), "hi": list(b["hi"])}
+            elif mode == "same-lower":
+                w = [h - l for l, h in zip(r["lo"], r["hi"])]
+                r = {"lo": list(b["lo"]), "hi": [l + x for l, x in zip(b["lo"], w)]}
+            else:
+                w = [h - l for l, h in zip(r["lo"], r["hi"])]
+                r = {"lo": [h - x for h, x in zip(b["hi"], w)], "hi": list(b["hi"])}
+        rects.append(r)
     S = draw(st.lists(st.integers(0, n - 1), unique=True, min_size=1, max_size=n))
     return {"cone": spec, "rects": rects, "S": sorted(S)}
 
